@@ -36,7 +36,7 @@ def run(ctx):
     if pr["broken"] or not pr["ok"]:
         ctx.violation(dict(kind="proof-obligation-broken", theorem_or_file=pr["broken"], bad_axioms=pr["bad_axioms"], log=pr["log"][-2000:]),
                       "proof obligation no longer checks: %s" % (pr["broken"] or pr["bad_axioms"]), found_input=False)
-    nprog = ctx.n(140, 3000)
+    nprog = ctx.n(140, 1500)
     args = ["-seed", str(ctx.seed), "-n", str(nprog)]
     if ctx.replay:
         rp = json.load(open(ctx.replay))
